@@ -6,7 +6,7 @@ so the harness's decoded output can be compared with the original as a string.
 Doubles are always 16-hex-digit bit patterns (never Python floats), integers are
 Python ints, byte strings are `bytes`.
 """
-import random, struct
+import random, re, struct
 
 KINDS_V2 = ["v2.track", "v2.beat", "v2.cues", "v2.loops", "v2.ovw"]
 KINDS_V1 = ["v1.track", "v1.beat", "v1.cues", "v1.loops", "v1.ovw", "v1.hires"]
@@ -176,7 +176,7 @@ class Gen:
 
     def wave_len(self, big):
         r = self.r
-        n = r.choice([0, 0, 1, 2, 3, 10, 100, 1024]) if not big else r.choice([10000, 100000])
+        n = r.choice([0, 0, 1, 2, 3, 10, 100, 1023, 1024, 1025]) if not big else r.choice([10000, 100000])
         self.count("wave_len:%s" % ("0" if n == 0 else "1-1024" if n <= 1024 else ">1024"))
         return n
 
@@ -493,7 +493,370 @@ def gen_values(rng, tier, hist, per_kind=None):
         for kind in ("v2.beat", "v1.beat", "v2.ovw", "v1.ovw", "v1.hires"):
             for _ in range(4):
                 out.append((kind, g.value(kind, big=True)))
+    out += big_incompressible(rng, tier, hist)
+    out += chunk_boundary_values(rng, tier, hist)
+    out += grid_cap_values(rng, tier, hist)
+    for name, where in THRESHOLDS.items():       # the audit of numeric thresholds, into the evidence
+        hist["threshold:%s -> %s" % (name, where)] = 1
+    # the witnesses of the Lean `_counterexample` theorems, replayed on the real library on every run
+    out.append(("v1.track", dict(sr="3ff0000000000000", sc=255, loud=None, key=0)))     # C03_v1_track_roundtrip_counterexample
+    out.append(("v1.beat", dict(sr=NEGZERO, sc=None, dflt=[], adj=[])))                  # C03_v1_beat_roundtrip_counterexample
     return out
+
+
+def big_incompressible(rng, tier, hist):
+    """Values whose payload is 17-100 KB of noise: their deflate stream does not fit one 16 KiB output
+    buffer, so the multi-buffer paths of zlib_compress / zlib_uncompress are exercised on every run
+    (every compressed kind that can grow: waveforms, extra_data of the 2.x structs, long grids)."""
+    g = Gen(rng, hist)
+
+    def noise(n):
+        return bytes(rng.getrandbits(8) for _ in range(n))
+
+    sizes = [17000, 24000] if tier == "quick" else [16384, 17000, 24000, 50000, 100000]
+    out = []
+    for n in sizes:
+        out.append(("v2.ovw", dict(spp=g.f(), pts=noise(3 * (n // 3)), mx=noise(3), extra=b"")))
+        out.append(("v2.beat", dict(sr=g.f(), samples=g.f(), flag=1, dflt=[], adj=[], extra=noise(n))))
+        out.append(("v2.track", dict(sr=g.f(), samples=g.i64(), key=g.i32(), lo=g.f(), mid=g.f(), hi=g.f(),
+                                     extra=noise(n))))
+        out.append(("v2.cues", dict(cues=[(b"x", g.f(), (1, 2, 3, 4))], adj=g.f(), flag=1, dflt=g.f(), extra=noise(n))))
+        out.append(("v1.hires", dict(spe=g.f(), wf=noise(6 * (n // 6)))))
+        w = bytearray(noise(6 * (n // 3)))
+        for i in range(len(w) // 6):
+            w[6 * i + 3] = w[6 * i + 4] = w[6 * i + 5] = 255
+        out.append(("v1.ovw", dict(spe=g.f(), wf=bytes(w))))
+        # a long valid 1.x grid with noisy offsets (24 bytes per marker)
+        m, off, grid = n // 24, 0.0, []
+        for i in range(min(m, 32768)):
+            off += rng.uniform(0.001, 1e6)
+            grid.append((4 * i, dbits(off)))
+        out.append(("v1.beat", dict(sr=dbits(44100.0), sc=dbits(1e7), dflt=grid, adj=[])))
+    for (k, _) in out:
+        hist["big_incompressible:" + k] = hist.get("big_incompressible:" + k, 0) + 1
+    return out
+
+
+# ---------------------------------------------------------------- numeric thresholds of the C++
+CHUNK = 16384                       # zlib_compress / zlib_uncompress: input chunk and output buffer size
+COMPRESSED_KINDS = [k for k in KINDS if k not in RAW_KINDS]
+THRESHOLDS = {
+    "zlib chunk 16384 (payload size)": "chunk_boundary_values: k*16384-1, k*16384, k*16384+1 for k=1..4, and 0, 1",
+    "label length 255": "Gen.label / v1_label: 254, 255, 256, 257 and the 0..300 sweep",
+    "8 cue/loop slots (1.x)": "Gen.v1_slots: 7, 8, 9 and the 0..12 sweep",
+    "1.x beat-grid cap 32768 markers": "grid_cap_values: 32767, 32768 (accepted), 32769 (rejected)",
+    "1.x grid: 1 marker / index step 2^31-1": "grid_cap_values: 1, 2 markers; step 2^31-1 (accepted), 2^31 (rejected)",
+    "overview waveform 1024 entries": "Gen.wave_len: 1023, 1024, 1025 (no codec threshold; track_utils' recommended size)",
+    "minimum payload lengths 8/25/27/28/30/33/44": "C05 truncations: every prefix length of valid payloads",
+}
+
+
+def payload_len(kind, v):
+    """size in bytes of the uncompressed payload the format defines for v (None: not encodable / fixed)"""
+    if kind == "v2.track":
+        return 44 + len(v["extra"])
+    if kind == "v2.beat":
+        return 33 + 24 * (len(v["dflt"]) + len(v["adj"])) + len(v["extra"])
+    if kind == "v2.cues":
+        return 25 + sum(13 + len(l) for (l, _, _) in v["cues"]) + len(v["extra"])
+    if kind == "v2.loops":
+        return 8 + sum(23 + len(q[0]) for q in v["loops"]) + len(v["extra"])
+    if kind == "v2.ovw":
+        return 27 + 3 * (len(v["pts"]) // 3) + len(v["extra"])
+    if kind == "v1.track":
+        return 28
+    if kind == "v1.beat":
+        return 33 + 24 * (len(v["dflt"]) + len(v["adj"]))
+    if kind == "v1.cues":
+        return 129 + sum(len(q[0]) for q in v["cues"] if q is not None)
+    if kind == "v1.loops":
+        return 8 + 23 * len(v["loops"]) + sum(len(q[0]) for q in v["loops"] if q is not None)
+    if kind == "v1.ovw":
+        return 27 + 3 * (len(v["wf"]) // 6)
+    if kind == "v1.hires":
+        return 30 + 6 * (len(v["wf"]) // 6)
+    raise KeyError(kind)
+
+
+def chunk_targets(tier, seed_rot=0):
+    """payload sizes around the 16384-byte chunking threshold of zlib_compress: k*16384-1, k*16384, k*16384+1."""
+    ks = (1, 2, 3, 4)
+    return [0, 1] + [k * CHUNK + d for k in ks for d in (-1, 0, 1)]
+
+
+def _bytes_like(rng, n, style):
+    """n payload bytes: incompressible noise (multi-buffer deflate output), or low-entropy text (one buffer)."""
+    if style == "noise":
+        return rng.randbytes(n)
+    if style == "zeros":
+        return bytes(n)
+    return (b"Engine DJ performance data " * (n // 27 + 1))[:n]
+
+
+def value_of_size(kind, t, rng, g, style):
+    """a value of `kind` whose payload is exactly t bytes, or None when the format has no such value."""
+    if kind == "v2.track":
+        if t < 44: return None
+        return dict(sr=g.f(), samples=g.i64(), key=g.i32(), lo=g.f(), mid=g.f(), hi=g.f(),
+                    extra=_bytes_like(rng, t - 44, style))
+    if kind == "v2.beat":
+        if t < 33: return None
+        m = min((t - 33) // 24, rng.choice([0, 2, 40]))
+        mk = [(dbits(100.0 * i), 4 * i, 4, 0) for i in range(m)]
+        return dict(sr=g.f(), samples=g.f(), flag=1, dflt=mk[:m // 2], adj=mk[m // 2:],
+                    extra=_bytes_like(rng, t - 33 - 24 * m, style))
+    if kind == "v2.cues":
+        if t < 25: return None
+        cs = []
+        room = t - 25
+        for lab in (b"Cue 1", b"", b"x" * 255):
+            if room >= 13 + len(lab) and rng.random() < 0.7:
+                cs.append((lab, g.f(), g.color()))
+                room -= 13 + len(lab)
+        return dict(cues=cs, adj=g.f(), flag=1, dflt=g.f(), extra=_bytes_like(rng, room, style))
+    if kind == "v2.ovw":
+        if t < 27: return None
+        n, x = (t - 27) // 3, (t - 27) % 3
+        return dict(spp=g.f(), pts=_bytes_like(rng, 3 * n, style), mx=rng.randbytes(3), extra=_bytes_like(rng, x, "noise"))
+    if kind == "v1.beat":
+        if t < 33 or (t - 33) % 24: return None
+        m = (t - 33) // 24
+        if m == 1 or m > 65536: return None
+        na = 0 if m < 4 or m <= 32768 and rng.random() < 0.5 else max(2, m - 32768, rng.choice([2, m // 2]))
+        nd = m - na
+        if nd == 1: nd, na = 2, m - 2
+        if nd > 32768 or na > 32768 or na == 1: return None
+
+        def grid(n):
+            off, out = rng.uniform(-100.0, 100.0), []
+            for i in range(n):
+                off += rng.uniform(0.001, 1e6) if style == "noise" else 22050.0
+                out.append((4 * i - 4, dbits(off)))
+            return out
+        return dict(sr=dbits(44100.0), sc=dbits(1e7), dflt=grid(nd), adj=grid(na))
+    if kind == "v1.ovw":
+        if t < 27 or (t - 27) % 3: return None
+        w = bytearray(_bytes_like(rng, 6 * ((t - 27) // 3), style))
+        for i in range(len(w) // 6):
+            w[6 * i + 3] = w[6 * i + 4] = w[6 * i + 5] = 255
+        return dict(spe=g.f(), wf=bytes(w))
+    if kind == "v1.hires":
+        if t < 30 or (t - 30) % 6: return None
+        return dict(spe=g.f(), wf=_bytes_like(rng, t - 30, style))
+    return None          # v1.track (28 bytes), v1.cues (<= 2169 bytes): the sizes are out of reach
+
+
+def _reachable(kind, u):
+    return value_of_size(kind, u, random.Random(0), Gen(random.Random(0), {}), "zeros") is not None
+
+
+def chunk_boundary_sizes(kind, tier):
+    """{size: label}: the chunk-boundary payload sizes this layout can have — a target itself (`exact`) or, when the
+    layout has no value of that size, the nearest sizes it has on either side (`nearest`)."""
+    targets = chunk_targets(tier)
+    out = {}
+    for t in targets:
+        if _reachable(kind, t):
+            out[t] = "exact"
+    for t in targets:
+        if t in out:
+            continue
+        lo = next((u for u in range(t - 1, max(t - 25, -1), -1) if _reachable(kind, u)), None)
+        hi = next((u for u in range(t + 1, t + 25) if _reachable(kind, u)), None)
+        for u in (lo, hi):
+            if u is not None and u not in out:
+                out[u] = "nearest"
+    return out
+
+
+def boundary_label(u):
+    if u < CHUNK // 2:
+        return "size=%d" % u
+    k = (u + CHUNK // 2) // CHUNK
+    return "%d*16384%+d" % (k, u - k * CHUNK) if u != k * CHUNK else "%d*16384" % k
+
+
+def chunk_boundary_values(rng, tier, hist):
+    """For every compressed kind, values whose PAYLOAD size sits on the input-chunking threshold of zlib_compress:
+    0, 1 and k*16384-1, k*16384, k*16384+1 (k = 1..4) — exactly when the layout can have that size, otherwise the
+    nearest sizes the layout has on either side.  Contents alternate between noise (deflate output larger than one
+    16 KiB buffer) and text/zeros (one small buffer).  Every hit is printed into the histograms."""
+    g = Gen(rng, {})
+    out = []
+    styles = ["noise", "text", "zeros"]
+    for ki, kind in enumerate(COMPRESSED_KINDS):
+        sizes = chunk_boundary_sizes(kind, tier)
+        if not any(u >= CHUNK // 2 for u in sizes):
+            hist["chunk_boundary:%s:out of reach (payload size fixed or capped below 16383)" % kind] = 1
+        for ti, u in enumerate(sorted(sizes)):
+            v = value_of_size(kind, u, rng, g, styles[(ki + ti) % 3])
+            assert v is not None and payload_len(kind, v) == u, (kind, u)
+            out.append((kind, v))
+            key = "chunk_boundary:%s:%s(%s)" % (kind, boundary_label(u), sizes[u])
+            hist[key] = hist.get(key, 0) + 1
+    return out
+
+
+def diverse(violations, per=2, total=8):
+    """at most `per` violations of each distinct kind of failure (the `what` text without its parenthesised details),
+    `total` overall — so that one failing stream does not crowd out the others in the report"""
+    seen, out = {}, []
+    for v in violations:
+        key = re.sub(r"\(.*?\)", "", v["header"]["what"]).split(":")[0]
+        seen[key] = seen.get(key, 0) + 1
+        if seen[key] <= per:
+            out.append(v)
+    return out[:total]
+
+
+def size_note(kind, blob_hex):
+    """'(v2.ovw, payload of 49152 bytes = 3*16384)' from the 4-byte prefix of a stored blob"""
+    try:
+        n = int(blob_hex[:8], 16)
+    except ValueError:
+        return "(%s)" % kind
+    return "(%s, length prefix says %d payload bytes%s)" % (
+        kind, n, " = " + boundary_label(n) if is_chunk_boundary(n) else "")
+
+
+def is_chunk_boundary(n):
+    """payload length within one record (24 bytes) of a non-zero multiple of the chunk size"""
+    k = (n + CHUNK // 2) // CHUNK
+    return k >= 1 and abs(n - k * CHUNK) <= 24
+
+
+def grid_cap_values(rng, tier, hist):
+    """1.x beat grids on the 32768-marker cap (32767, 32768 accepted; 32769 rejected by encoder and decoder), on the
+    one-marker rule, and on the index-step limit 2^31-1."""
+    def grid(n, step=4):
+        off, out = 0.0, []
+        for i in range(n):
+            off += 1.0 + (i % 7)
+            out.append((i * step - 2 ** 31 if step * n < 2 ** 31 else i, dbits(off)))
+        return out
+    out = []
+    caps = [32768, 32769] if tier == "quick" else [32767, 32768, 32769, 40000]
+    for n in caps:
+        out.append(("v1.beat", dict(sr=dbits(44100.0), sc=dbits(1e7), dflt=grid(n), adj=[])))
+        hist["grid_cap:markers=%d" % n] = 1
+    if tier != "quick":
+        out.append(("v1.beat", dict(sr=dbits(44100.0), sc=None, dflt=grid(2), adj=grid(32768))))
+        out.append(("v1.beat", dict(sr=dbits(44100.0), sc=None, dflt=grid(2), adj=grid(32769))))
+        hist["grid_cap:adjusted=32768/32769"] = 2
+    for n in (1, 2, 3):
+        out.append(("v1.beat", dict(sr=None, sc=None, dflt=grid(n), adj=grid(n))))
+        hist["grid_cap:markers=%d" % n] = 1
+    for (a, b) in [(0, 2 ** 31 - 1), (-1, 2 ** 31 - 1), (-1, 2 ** 31 - 2), (-2 ** 31, -1), (-2 ** 31, 0)]:
+        out.append(("v1.beat", dict(sr=None, sc=None, dflt=[(a, dbits(0.0)), (b, dbits(1.0))], adj=[])))
+        hist["grid_cap:index_step=%s" % ("2^31-1" if b - a == 2 ** 31 - 1 else "2^31" if b - a == 2 ** 31 else
+                                         "2^31-2" if b - a == 2 ** 31 - 2 else str(b - a))] = \
+            hist.get("grid_cap:index_step=%s" % ("2^31-1" if b - a == 2 ** 31 - 1 else "2^31" if b - a == 2 ** 31 else
+                                                 "2^31-2" if b - a == 2 ** 31 - 2 else str(b - a)), 0) + 1
+    return out
+
+
+def chunk_plan(n):
+    """The input-chunking decision of zlib_compress as a function of the payload length alone (independent
+    re-statement of Lean `chunkPlan`, C03_compress_chunk_plan): (flush, avail_in) per outer-loop iteration."""
+    plan = []
+    while n > CHUNK:
+        plan.append((0, CHUNK))
+        n -= CHUNK
+    plan.append((4, n))
+    return plan
+
+
+def follows_plan(n, calls):
+    """None when the recorded deflate() calls follow chunk_plan(n) window by window (a non-empty run of calls per
+    window, each with the window's flush mode, the first seeing the whole window, every call but the last of a run
+    having filled the 16384-byte output buffer), else what is wrong."""
+    i = 0
+    for w, (flush, avail) in enumerate(chunk_plan(n)):
+        first = True
+        while True:
+            if i >= len(calls):
+                return "window %d (flush=%d avail_in=%d) of the input-chunking plan got no (more) deflate() call" % (w, flush, avail)
+            c = calls[i]
+            i += 1
+            if c[0] != flush:
+                return "call %d has flush=%d, the plan says %d for window %d" % (i - 1, c[0], flush, w)
+            if first and c[1] != avail:
+                return "call %d was handed avail_in=%d, the plan says %d for window %d" % (i - 1, c[1], avail, w)
+            first = False
+            if c[3] != CHUNK:
+                break
+    if i != len(calls):
+        return "%d deflate() call(s) after the Z_FINISH window ended" % (len(calls) - i)
+    return None
+
+
+def judge_ztrace(n, h):
+    """oracle on one `ztrace` answer of the real library for a payload of n bytes: None or what is wrong"""
+    t = h.split()
+    if not (len(t) >= 4 and t[0] == "ok"):
+        return None if h.startswith("throw") else "zlib_compress crashed: " + h[:80]
+    calls = [tuple(int(x) for x in c.split(":")) for c in t[4:]]
+    blen = int(t[2].split("=")[1])
+    why = None
+    if t[1] != "framed":
+        why = "zlib_compress wrote a blob from which an independent inflate does not recover the payload"
+    elif blen != 4 + sum(c[3] for c in calls):
+        why = "blob length is not 4 + all bytes deflate() produced"
+    elif not calls or calls[-1][0] != 4 or calls[-1][4] != 1:
+        why = "the last deflate() call was not a Z_FINISH call answering Z_STREAM_END"
+    elif sum(c[2] for c in calls) != n:
+        why = "deflate() did not consume the whole payload"
+    plan_err = follows_plan(n, calls)
+    if plan_err:
+        why = (why + "; " if why else "") + "input chunking: " + plan_err
+    return why
+
+
+MODEL_ONLY = ("senc", "sdec", "unframe", "stz", "inf", "zreplay")
+
+
+def replay(ctx, hdr, body):
+    """Replay of a recorded codec input on the working tree.  `enc`: the library's answer must carry a complete
+    framed blob and the Model's payload; `ztrace`: judged by the trace oracle, and the Model of the loops replays the
+    recorded calls; other lines: library and Model must answer alike (Spec-side lines run on the Model only)."""
+    import runner
+    lines = [l for l in body if not re.match(r"^[A-Za-z_()0-9 ]{1,20}: ", l)]
+    out, ok = [], True
+    for l in lines:
+        cmd = l.split(" ", 1)[0]
+        if cmd in MODEL_ONLY:
+            m = runner.run_model_script([l])[0]
+            out.append("%s\n   model: %s" % (l[:300], m[:300]))
+            continue
+        h = runner.run_harness_script([l], stateless=True, watchdog=20)[0][0]
+        good, note = True, ""
+        if cmd == "ztrace":
+            arg = l.split()[1]
+            n = 0 if arg == "-" else len(arg) // 2
+            t = h.split()
+            m = runner.run_model_script(["zreplay %d %s" % (n, " ".join(t[4:])) if t[:1] == ["ok"] else "zreplay %d" % n])[0]
+            if t[:1] == ["ok"]:
+                why = judge_ztrace(n, h)
+                want = "ok %s %s%s" % (t[2], t[3], "".join(" " + c for c in t[4:]))
+                good = why is None and m == want
+                note = why or ("" if m == want else "the Model of the loops makes different calls")
+            else:
+                good = (n == 0 and h == m)
+                note = "" if good else "zlib_compress did not return"
+        else:
+            m = runner.run_model_script([l])[0]
+            ht = h.split()
+            if cmd == "enc" and ht[:1] == ["ok"]:
+                good = " ".join(ht[:2]) == m and "UNFRAMED" not in ht
+                note = "" if good else ("the stored blob is not length + one complete zlib stream" if "UNFRAMED" in ht
+                                        else "payload differs from the Model's")
+            else:
+                good = h == m
+        ok = ok and good
+        out.append("%s\n   impl:  %s\n   model: %s%s" % (l[:300], h[:300], m[:300],
+                                                         "" if good else "   <-- " + (note or "differ")))
+    out.append("recorded verdict: %s" % hdr.get("what", "(none)"))
+    return ok, "\n".join(out)
 
 
 # ---------------------------------------------------------------- adversarial byte strings (C05, C04)
